@@ -100,14 +100,16 @@ fn pmh3_items(m: usize, items: &[(u64, f64)], nohash: bool) -> Res {
     catch(std::panic::AssertUnwindSafe(|| {
         if nohash {
             let mut h = ProbMinHash3::<u64, NoHashHasher>::new(m, INIT);
-            for (id, w) in items {
+            for (i, (id, w)) in items.iter().enumerate() {
                 h.hash_item(*id, w);
+                if i % 3 == 0 { let _ = h.get_signature().len(); } // observers between updates (anything they cache must not go stale)
             }
             (h.get_signature().clone(), h.verif_registers())
         } else {
             let mut h = ProbMinHash3::<u64, FnvHasher>::new(m, INIT);
-            for (id, w) in items {
+            for (i, (id, w)) in items.iter().enumerate() {
                 h.hash_item(*id, w);
+                if i % 3 == 0 { let _ = h.get_signature().clone(); let _ = h.verif_registers(); }
             }
             (h.get_signature().clone(), h.verif_registers())
         }
@@ -124,6 +126,7 @@ fn pmh3a_batches(m: usize, batches: &[Vec<(u64, f64)>]) -> Res {
                 map.insert(*id, *w);
             }
             h.hash_weigthed_idxmap(&map);
+            let _ = h.get_signature().clone(); // read between batches
         }
         (h.get_signature().clone(), h.verif_registers())
     }))
@@ -289,6 +292,44 @@ pub fn corr_opts(ctx: &mut Ctx, directed: bool) {
             if let (Ok(a), Ok(b)) = (&r, &rh) {
                 if a != b {
                     ctx.oracle_failure(serde_json::json!({"kind":"impl_violates_property","what":"ProbMinHash3aSha: IndexMap and HashMap entry points differ","m":m,"n":n,"wclass":format!("{:?}",wc)}));
+                }
+            }
+            // the SAME sketcher object fed in several batches (the batches of the 3a case above), both containers:
+            // the model gets the same batches; the result must equal the one-batch signature
+            if nb > 1 {
+                ctx.begin_case(&format!("pmh3asha {} batches m={} n={} w={:?}", nb, m, n, wc));
+                ctx.mark_nontrivial();
+                ctx.count("sha batches>1");
+                let rb = catch(std::panic::AssertUnwindSafe(|| {
+                    let mut h = ProbMinHash3aSha::<u64>::new(m, INIT);
+                    for b in &batches {
+                        let mut map: IndexMap<u64, f64> = IndexMap::new();
+                        for (id, w) in b { map.insert(*id, *w); }
+                        h.hash_weigthed_idxmap(&map);
+                    }
+                    (h.get_signature().clone(), h.verif_registers())
+                }));
+                ctx.op(&format!("pmh3 new a {} {}", m, INIT));
+                for b in &batches {
+                    let toks: Vec<String> = b.iter().map(|(id, w)| tok_sha(*id, *w)).collect();
+                    ctx.op(&format!("pmh3 batch a {}", toks.join(" ")));
+                }
+                emit(ctx, "pmh3", "a", &rb);
+                let rbh = catch(std::panic::AssertUnwindSafe(|| {
+                    let mut h = ProbMinHash3aSha::<u64>::new(m, INIT);
+                    for b in &batches {
+                        let mut map: HashMap<u64, f64> = HashMap::new();
+                        for (id, w) in b { map.insert(*id, *w); }
+                        h.hash_weigthed_hashmap(&map);
+                    }
+                    (h.get_signature().clone(), h.verif_registers())
+                }));
+                for (what, other) in [("IndexMap batches", &rb), ("HashMap batches", &rbh)] {
+                    match (&r, other) {
+                        (Ok(a), Ok(b)) if a == b => {}
+                        _ => ctx.oracle_failure(serde_json::json!({"kind":"impl_violates_property","what":format!("ProbMinHash3aSha: {} on one sketcher differ from the one-batch signature", what),"m":m,"n":n,"batches":nb,"wclass":format!("{:?}",wc),
+                            "items": items.iter().take(40).map(|(i,w)| format!("{}:{}",i,fhx(*w))).collect::<Vec<_>>()})),
+                    }
                 }
             }
         }
